@@ -346,6 +346,7 @@ func c12Alphabet(full bool) []vshOp {
 		{Side: "X", Op: "replace", Idx: 0, N: 0},
 		{Side: "X", Op: "replace", Idx: 0, N: 1},
 		{Side: "X", Op: "dc"},
+		{Side: "X", Op: "dcbad"},
 		{Side: "X", Op: "neg"},
 		{Side: "P", Op: "neg"},
 		{Side: "P", Op: "dc"},
